@@ -22,7 +22,84 @@ fn deadlines(a: &Analysis, p: usize) -> Option<(usize, usize, usize)> {
     Some((o.op, tight, poll_end))
 }
 
+/// A polled (removal / despawn) reaction count that is outside its expected range.
+#[derive(Clone, Debug)]
+pub struct PolledDisc {
+    pub op: usize,
+    pub inst: Inst,
+    pub key: Key,
+    /// "removal" | "despawn"
+    pub what: &'static str,
+    /// "missed" | "duplicate" | "unexpected"
+    pub class: &'static str,
+    pub msg: String,
+    pub pos: usize,
+}
+
+type ExpMap = BTreeMap<(usize, Inst, Key), (u32, u32, usize)>;
+type ObsMap = BTreeMap<(usize, Inst, Key), (u32, usize)>;
+
+fn compare(a: &Analysis, exp: &ExpMap, obs: &ObsMap) -> Vec<PolledDisc> {
+    let mut out = vec![];
+    for ((op, inst, key), (lo, hi, pos)) in exp.iter() {
+        let o = obs.get(&(*op, *inst, *key)).map(|x| x.0).unwrap_or(0);
+        let what = if matches!(key, Key::Desp(_)) { "despawn" } else { "removal" };
+        if o < *lo {
+            out.push(PolledDisc {
+                op: *op,
+                inst: *inst,
+                key: *key,
+                what,
+                class: "missed",
+                msg: format!("op {op}: instance {inst} reacted {o}x to {:?}, expected at least {lo} (at most {hi}) by the deadline", key),
+                pos: *pos,
+            });
+        } else if o > *hi {
+            out.push(PolledDisc {
+                op: *op,
+                inst: *inst,
+                key: *key,
+                what,
+                class: "duplicate",
+                msg: format!("op {op}: instance {inst} reacted {o}x to {:?}, expected at most {hi}", key),
+                pos: *pos,
+            });
+        }
+    }
+    for ((op, inst, key), (o, pos)) in obs.iter() {
+        if op_skipped(a, *op) || exp.contains_key(&(*op, *inst, *key)) {
+            continue;
+        }
+        let what = if matches!(key, Key::Desp(_)) { "despawn" } else { "removal" };
+        out.push(PolledDisc {
+            op: *op,
+            inst: *inst,
+            key: *key,
+            what,
+            class: "unexpected",
+            msg: format!("op {op}: instance {inst} reacted {o}x to {:?} without a registration live for it", key),
+            pos: *pos,
+        });
+    }
+    out
+}
+
+/// The discrepancies of polled reactions only (used by the monitors of other properties for the instances they own).
+pub fn polled_discrepancies(cx: &Ctx) -> Vec<PolledDisc> {
+    let (exp, obs, _, _) = expectations(cx);
+    compare(cx.a, &exp, &obs)
+}
+
 pub fn c08(cx: &Ctx) -> (Vec<Violation>, Cover) {
+    let a = cx.a;
+    let (exp, obs, mut v, cov) = expectations(cx);
+    for d in compare(a, &exp, &obs) {
+        v.push(Violation::new("C08", format!("C08/{}/{}", d.what, d.class), d.msg.clone(), d.pos));
+    }
+    (v, cov)
+}
+
+fn expectations(cx: &Ctx) -> (ExpMap, ObsMap, Vec<Violation>, Cover) {
     let a = cx.a;
     let mut v = vec![];
     let mut cov = Cover::default();
@@ -119,36 +196,5 @@ pub fn c08(cx: &Ctx) -> (Vec<Violation>, Cover) {
             }
         }
     }
-    for ((op, inst, key), (lo, hi, pos)) in exp.iter() {
-        let o = obs.get(&(*op, *inst, *key)).map(|x| x.0).unwrap_or(0);
-        let what = if matches!(key, Key::Desp(_)) { "despawn" } else { "removal" };
-        if o < *lo {
-            v.push(Violation::new(
-                "C08",
-                format!("C08/{what}/missed"),
-                format!("op {op}: instance {inst} reacted {o}x to {:?}, expected at least {lo} (at most {hi}) by the deadline", key),
-                *pos,
-            ));
-        } else if o > *hi {
-            v.push(Violation::new(
-                "C08",
-                format!("C08/{what}/duplicate"),
-                format!("op {op}: instance {inst} reacted {o}x to {:?}, expected at most {hi}", key),
-                *pos,
-            ));
-        }
-    }
-    for ((op, inst, key), (o, pos)) in obs.iter() {
-        if op_skipped(a, *op) || exp.contains_key(&(*op, *inst, *key)) {
-            continue;
-        }
-        let what = if matches!(key, Key::Desp(_)) { "despawn" } else { "removal" };
-        v.push(Violation::new(
-            "C08",
-            format!("C08/{what}/unexpected"),
-            format!("op {op}: instance {inst} reacted {o}x to {:?} without a registration live for it", key),
-            *pos,
-        ));
-    }
-    (v, cov)
+    (exp, obs, v, cov)
 }
